@@ -23,6 +23,7 @@ of a SEGMENT of a function body (`seg_from` / `seg_to`).
 from __future__ import annotations
 
 import ast
+import json
 import os
 import re
 import textwrap
@@ -99,6 +100,8 @@ def parse_type(s: str):
             return ("Stream", atom())
         if h == "Set":                        # a Python set: a duplicate-free list in insertion order (`Py.Set`)
             return ("Set", atom())
+        if h == "Iter":                       # an iterator: the list of the items it has not produced yet
+            return ("Iter", atom())
         if h == "Dict":
             k = atom(); v = atom()
             return ("Dict", k, v)
@@ -144,7 +147,7 @@ def show_type(t) -> str:
         return "Int" if is_node(t) else t          # a node handle is the row index it dereferences on every access
     if t[0] == "Stream":
         return f"(Py.Stream {show_type(t[1])})"
-    if t[0] == "List":
+    if t[0] in ("List", "Iter"):
         return f"(List {show_type(t[1])})"
     if t[0] == "Option":
         return f"(Option {show_type(t[1])})"
@@ -349,6 +352,8 @@ class FnTr:
             return [], "true" if e.value else "false", "Bool"
         if isinstance(e.value, int):
             return [], f"({e.value} : Int)", "Int"
+        if isinstance(e.value, str):
+            return [], json.dumps(e.value, ensure_ascii=False), "String"
         raise Untranslatable(f"constant {e.value!r}")
 
     def e_Name(self, e, want):
@@ -361,6 +366,8 @@ class FnTr:
         return [], f"v.{lname(key)}", ty
 
     def e_Attribute(self, e, want):
+        if ast.unparse(e) in ("np.inf", "numpy.inf"):
+            return [], "(none : Option Int)", ("Option", "Int")     # a float that is finite (`some`) or +inf (`none`)
         if e.attr == "shape":
             # `.shape` of a 2-d array / 2-d masked array
             try:
@@ -433,6 +440,9 @@ class FnTr:
             return code
         if want == "Frac" and have == "Int":
             return f"({code}, (1 : Int))"
+        if (isinstance(want, tuple) and want[0] == "List" and isinstance(want[1], tuple) and want[1][0] == "Option"
+                and have == ("List", want[1][1])):
+            return f"(({code}).map some)"            # an array of finite floats where an array that may hold `inf` is expected
         if isinstance(want, tuple) and want[0] == "Option":
             if have == want[1]:
                 return f"(some {code})"
@@ -553,6 +563,8 @@ class FnTr:
             return s1 + s2, f"(Py.eqMask {a} {b})", ("List", "Bool")
         if isinstance(ta, tuple) and ta == ("List", "Int") and tb == "Int" and isinstance(op, ast.NotEq):
             return s1 + s2, f"(Py.neMask {a} {b})", ("List", "Bool")
+        if isinstance(ta, tuple) and ta == ("List", "Int") and tb == "Int" and isinstance(op, ast.LtE):
+            return s1 + s2, f"(Py.leMask {a} {b})", ("List", "Bool")
         if ta == ("List", "Int") and tb == ("List", "Int") and isinstance(op, ast.Lt):
             return s1 + s2, f"(Py.ltMask {a} {b})", ("List", "Bool")
         sym = {ast.Eq: "=", ast.NotEq: "≠", ast.Lt: "<", ast.LtE: "≤", ast.Gt: ">", ast.GtE: "≥"}.get(type(op))
@@ -616,6 +628,14 @@ class FnTr:
                 and f"df[{ast.unparse(e.slice.elts[1])}]" in self.spec.stores):
             col = self.spec.stores[f"df[{ast.unparse(e.slice.elts[1])}]"]
             return self.e_Subscript(ast.Subscript(ast.Name(col, ast.Load()), e.slice.elts[0], ast.Load()), want)
+        # `col.iloc[k]`: positional indexing of a column
+        if isinstance(e.value, ast.Attribute) and e.value.attr == "iloc" and not isinstance(e.slice, (ast.Slice, ast.Tuple)):
+            s0, c, t = self.tr(e.value.value)
+            if isinstance(t, tuple) and t[0] == "List":
+                s2, i, ti = self.tr(e.slice)
+                if ti == "Int":
+                    n = self.bindname()
+                    return s0 + s2 + [f"Py.bind (Py.idx {c} {i}) fun {n} =>"], n, t[1]
         # `x.shape[0]` of a 1-d array
         if (isinstance(e.value, ast.Attribute) and e.value.attr == "shape" and isinstance(e.slice, ast.Constant) and e.slice.value == 0):
             s0, c, t = self.tr(e.value.value)
@@ -761,7 +781,7 @@ class FnTr:
         return e
 
     def elem_type(self, t):
-        if isinstance(t, tuple) and t[0] in ("List", "Stream", "Set"):
+        if isinstance(t, tuple) and t[0] in ("List", "Stream", "Set", "Iter"):
             return t[1]
         if isinstance(t, tuple) and t[0] in ("Dict", "DDict"):
             return t[1]
@@ -982,7 +1002,8 @@ class FnTr:
         # --- a call that is, at the level of the translated data, a call of another translated function
         if f in self.spec.call_alias:
             tgt, idxs = self.spec.call_alias[f]
-            e = ast.Call(ast.parse(tgt).body[0].value, [args[i] for i in idxs], [])
+            # an argument is one of the call's own arguments (by position) or the source text of an expression over the modelled data
+            e = ast.Call(ast.parse(tgt).body[0].value, [args[i] if isinstance(i, int) else ast.parse(i, mode="eval").body for i in idxs], [])
             ast.fix_missing_locations(e)
             f, args, kw = tgt, e.args, {}
         # --- calls to other translated functions
@@ -995,29 +1016,50 @@ class FnTr:
                 if not isinstance(recv, ast.Name):
                     raise Untranslatable(f"receiver `{ast.unparse(recv)}`")
                 codes.append(f"v.{lname(recv.id)}")
+            argexpr = {"self": recv} if recv is not None else {}
             for x in args:
-                s, c, _ = self.tr(x)
-                steps += s; codes.append(c)
+                pn = callee.params[len(codes)] if len(codes) < len(callee.params) else None
+                pt = parse_type(callee.vars[pn]) if pn in callee.vars else None
+                s, c, t = self.tr(x, pt)
+                if pt is not None and t != pt and not (is_node(t) or is_node(pt)):
+                    c = self.coerce(c, t, pt)
+                steps += s; codes.append(c); argexpr[pn] = x
             for k in callee.params[len(codes):]:
-                if k in kw:
-                    s, c, _ = self.tr(kw[k]); steps += s; codes.append(c)
+                # keyword arguments, then the defaults of the callee's own signature (read from its source)
+                x = kw[k] if k in kw else fn_defaults(callee).get(k)
+                if x is not None:
+                    pt = parse_type(callee.vars[k]) if k in callee.vars else None
+                    s, c, t = self.tr(x, pt)
+                    if pt is not None and t != pt and not (is_node(t) or is_node(pt)):
+                        c = self.coerce(c, t, pt)
+                    steps += s; codes.append(c); argexpr[k] = x
             n = self.bindname()
             fuel = "fuel " if callee.fuel else ""
             if callee.fuel and not self.spec.fuel:
                 raise Untranslatable(f"{self.spec.lean} calls {callee.lean} which needs fuel")
+            # out-parameters (objects / DataFrame columns the callee updates in place) are written back to the caller's variables
+            outs = []
+            for o in callee.out:
+                x = argexpr.get(o)
+                if x is not None and ast.unparse(x) in self.spec.stores:
+                    outs.append(lname(self.spec.stores[ast.unparse(x)]))
+                elif isinstance(x, ast.Name) and x.id in self.vars:
+                    outs.append(lname(x.id))
+                else:
+                    raise Untranslatable(f"{self.spec.lean}: out-parameter `{o}` of {callee.lean} is not bound to a variable")
             if callee.callbacks:
                 # the callee shares this function's callbacks and their state
-                if callee.callbacks != self.spec.callbacks or callee.out != ["self"] or recv is None:
+                if callee.callbacks != self.spec.callbacks:
                     raise Untranslatable(f"{self.spec.lean}: call of {callee.lean} with different callbacks")
                 call = f"{callee.lean} {self.bargs_nofuel} {fuel}{' '.join(codes)} v.cbs"
-                steps.append(f"Py.bind ({call}) fun {n} => let v := {{ v with {lname(recv.id)} := {n}.1, cbs := {n}.2.1 }};")
-                return steps, f"{n}.2.2", parse_type(callee.ret)
-            call = f"{callee.lean} {fuel}{' '.join(codes)}"
-            if callee.out:
-                if callee.out != ["self"] or recv is None:
-                    raise Untranslatable("only `self` can be an out-parameter")
-                steps.append(f"Py.bind ({call}) fun {n} => let v := {{ v with {lname(recv.id)} := {n}.1 }};")
-                return steps, f"{n}.2", parse_type(callee.ret)
+                outs = outs + ["cbs"]
+            else:
+                call = f"{callee.lean} {fuel}{' '.join(codes)}"
+            if outs:
+                k = len(outs) + 1
+                back = ", ".join(f"{o} := {proj(n, j, k)}" for j, o in enumerate(outs))
+                steps.append(f"Py.bind ({call}) fun {n} => let v := {{ v with {back} }};")
+                return steps, proj(n, k - 1, k), parse_type(callee.ret)
             steps.append(f"Py.bind ({call}) fun {n} =>")
             return steps, n, parse_type(callee.ret)
         # --- constructors of translated classes: `C(args)` = `C.__init__(fresh object, args)`
@@ -1046,6 +1088,10 @@ class FnTr:
             if not (isinstance(want, tuple) and want[0] == "DDict"):
                 raise Untranslatable(f"{self.spec.lean}: defaultdict(list) of unknown type")
             return [], f"([] : {show_type(want)})", want
+        if f == "len" and len(args) == 1 and isinstance(args[0], ast.Call) and ast.unparse(args[0].func) == "np.unique":
+            s0, c, t = self.tr(args[0].args[0])
+            if t == ("List", "Int"):
+                return s0, f"(Py.uniqueCount {c})", "Int"
         if f == "len" and len(args) == 1:
             s, c, t = self.tr(args[0])
             if isinstance(t, tuple) and t[0] in ("List", "Dict", "DDict"):
@@ -1080,6 +1126,12 @@ class FnTr:
             s0, c, t = self.tr(args[0])
             if t == ("List", "Bool"):
                 return s0, f"(Py.any {c})", "Bool"
+        if f == "next" and len(args) == 1 and isinstance(args[0], ast.Name):
+            t = self.var_type(args[0].id)
+            if isinstance(t, tuple) and t[0] == "Iter":
+                n = self.bindname()
+                nm = lname(args[0].id)
+                return [f"Py.bind (Py.next v.{nm}) fun {n} => let v := {{ v with {nm} := {n}.2 }};"], f"{n}.1", t[1]
         if f == "bool" and len(args) == 1:
             s, c, t = self.tr(args[0])
             return s, self.as_bool(c, t), "Bool"
@@ -1155,6 +1207,14 @@ class FnTr:
                 if tb == "Int":
                     b = f"(({c}).map (fun _ => {b}))"
                 return s0 + s1 + s2, f"(Py.where_ {c} {a} {b})", ("List", "Int")
+            OI = ("Option", "Int")
+            if tc == ("List", "Bool") and ta in (("List", OI), OI) and tb in (("List", OI), OI) and (ta, tb) != (OI, OI):
+                # float arrays that may hold `inf`
+                if ta == OI:
+                    a = f"(({c}).map (fun _ => {a}))"
+                if tb == OI:
+                    b = f"(({c}).map (fun _ => {b}))"
+                return s0 + s1 + s2, f"(Py.whereA {c} {a} {b})", ("List", OI)
         if f == "len" and len(args) == 1 and isinstance(args[0], ast.Call) and ast.unparse(args[0].func) == "np.unique":
             s0, c, t = self.tr(args[0].args[0])
             if t == ("List", "Int"):
@@ -1207,6 +1267,21 @@ class FnTr:
                 if isinstance(t, tuple) and t[0] == "Masked2" and t[1] in self.num:
                     n = self.bindname()
                     return s + [f"Py.bind (Py.maArgmin {c}) fun {n} =>"], n, "Int"
+            if meth == "argmin" and not args and not kw:
+                s, c, t = self.tr(recv)
+                if t == ("List", ("Option", "Int")):
+                    n = self.bindname()
+                    return s + [f"Py.bind (Py.argminInf {c}) fun {n} =>"], n, "Int"
+            if meth == "any" and not args:
+                s, c, t = self.tr(recv)
+                if t == ("List", "Bool"):
+                    return s, f"(Py.any {c})", "Bool"
+            if (meth == "iterrows" and not args and isinstance(recv, ast.Subscript) and ast.unparse(recv.value) == "df"
+                    and any(k.startswith("df[") for k in self.spec.stores)):
+                # `df[mask].iterrows()`: the selected rows of a frame whose columns are variables (default RangeIndex: label = position)
+                s, c, t = self.tr(recv.slice)
+                if t == ("List", "Bool"):
+                    return s, f"(Py.iterrows {c})", ("Iter", ("Prod", "Int", "Int"))
             if meth == "argmax" and not args:
                 s, c, t = self.tr(recv)
                 if t == ("List", "Bool"):
@@ -1283,6 +1358,12 @@ class FnTr:
         e = s.value
         if isinstance(e, ast.Constant) and isinstance(e.value, str):
             return None                                            # docstring
+        if isinstance(e, ast.Call) and ast.unparse(e.func) == "warnings.warn":
+            # a warning is recorded as the number of its call site (in source order) in the declared variable `warnings_`; the text is dropped
+            if self.vars.get("warnings_") != ("List", "Int"):
+                raise Untranslatable(f"{self.spec.lean}: `warnings.warn` needs a variable `warnings_ : List Int`")
+            k = self.warn_sites.index((e.lineno, e.col_offset))
+            return f"(fun (v : {self.Vt}) => .next {{ v with warnings_ := v.warnings_ ++ [({k} : Int)] }})"
         if isinstance(e, ast.Call) and isinstance(e.func, ast.Attribute):
             meth, recv = e.func.attr, e.func.value
             if meth == "append" and len(e.args) == 1:
@@ -1365,6 +1446,8 @@ class FnTr:
                 # the source copies a variable it has just tested `is not None`: a None here is unreachable, and is an error in the typed model
                 n0 = self.bindname()
                 st, c, t = st + [f"Py.bind ({c}) fun {n0} =>"], n0, want
+            if want is not None and t != want and isinstance(want, tuple) and want[0] == "List" and isinstance(t, tuple) and t[0] == "List":
+                c, t = self.coerce(c, t, want), want
             key = self.assign_version(tgt.id, t)
             self.check_type(key, t, s)
             return self.chain(st, f".next {{ v with {lname(key)} := {c} }}")
@@ -1529,6 +1612,29 @@ class FnTr:
             elif test.left.id in self.spec.absent:
                 val = isinstance(test.ops[0], ast.Is)
         return None if val is None else (val != neg)
+
+    def s_Match(self, s):
+        """`match e:` with constant patterns and a final wildcard: the first case whose constant equals the subject (`==`)"""
+        st, c, t = self.tr(s.subject)
+        m = self.bindname()
+        code = "Py.skip v"
+        for k, case in reversed(list(enumerate(s.cases))):
+            if case.guard is not None:
+                raise Untranslatable(f"{self.spec.lean}: guarded `case`")
+            body = self.block(case.body)
+            p = case.pattern
+            if isinstance(p, ast.MatchAs) and p.pattern is None and p.name is None:
+                if k != len(s.cases) - 1:
+                    raise Untranslatable("wildcard before the last case")
+                code = f"{body} v"
+            elif isinstance(p, ast.MatchValue) and isinstance(p.value, ast.Constant):
+                _, cc, tc = self.tr(p.value)
+                if tc != t or t not in ("Int", "String", "Bool"):
+                    raise Untranslatable(f"{self.spec.lean}: `case {ast.unparse(p)}` against a subject of type {t}")
+                code = f"if (decide ({m} = {cc})) then {body} v else {code}"
+            else:
+                raise Untranslatable(f"{self.spec.lean}: pattern `case {ast.unparse(p)}`")
+        return self.chain(st + [f"let {m} := {c};"], code)
 
     def s_Return(self, s):
         if s.value is None:
@@ -1750,7 +1856,7 @@ class FnTr:
         stream = isinstance(tit, tuple) and tit[0] == "Stream"
         if stream and not self.spec.raises:
             raise Untranslatable(f"{self.spec.lean}: iteration over a stream in a function without tracked exceptions")
-        loop = (lambda b: f"Py.forEachS ({b}) ({it}).items ({it}).fail v") if stream else (lambda b: f"Py.forEach ({b}) {it} v")
+        loop = (lambda b: f"Py.forEachS ({b}) ({it}).items ({it}).fail {v0}") if stream else (lambda b: f"Py.forEach ({b}) {it} {v0}")
         if isinstance(s.target, ast.Name):
             upd = f"{{ v with {lname(s.target.id)} := {self.coerce('x', et, self.var_type(s.target.id))} }}"
         else:
@@ -1758,6 +1864,14 @@ class FnTr:
             pts = prod_parts(et, n)
             upd = "{ v with " + ", ".join(f"{lname(x.id)} := {self.coerce(proj('x', k, n), pts[k], self.var_type(x.id))}"
                                           for k, x in enumerate(s.target.elts)) + " }"
+        v0 = "v"
+        if isinstance(tit, tuple) and tit[0] == "Iter":
+            # the loop takes the remaining items of the iterator: afterwards (and inside the body) the iterator is exhausted
+            if not isinstance(s.iter, ast.Name):
+                raise Untranslatable(f"{self.spec.lean}: `for` over the iterator expression `{ast.unparse(s.iter)}`")
+            if any(isinstance(n, ast.Break) or (isinstance(n, ast.Name) and n.id == s.iter.id) for b in s.body for n in ast.walk(b)):
+                raise Untranslatable(f"{self.spec.lean}: the body of `for … in {s.iter.id}` breaks or uses the iterator")
+            v0 = f"{{ v with {lname(s.iter.id)} := [] }}"
         if self.hoist:
             self.nloop += 1
             nm = f"{self.spec.lean}.for{self.nloop}"
@@ -1869,6 +1983,8 @@ class FnTr:
             pos.update({x.arg: d for x, d in zip(a.kwonlyargs, a.kw_defaults) if d is not None})
             if pn not in pos or ast.unparse(pos[pn]) != dv:
                 raise Untranslatable(f"{sp.lean}: the default of `{pn}` is `{ast.unparse(pos[pn]) if pn in pos else None}`, the spec says `{dv}`")
+        self.warn_sites = sorted((n.lineno, n.col_offset) for n in ast.walk(fdef)
+                                 if isinstance(n, ast.Call) and ast.unparse(n.func) == "warnings.warn")
         self.hoist = not (sp.fuel and (f"self.{sp.func}(" in ast.unparse(fdef) or any(
             isinstance(n, ast.Call) and ast.unparse(n.func) == sp.func for n in ast.walk(fdef))))
         stmts = fdef.body
@@ -2056,6 +2172,21 @@ def imported_const(module: str, name: str, cache: dict, depth: int = 4):
             if val is not None:
                 found = val
     return found
+
+
+_AST_CACHE = {}
+
+
+def fn_defaults(sp) -> dict:
+    """default values of the parameters of a translated function, read from its current source (`def f(a, b=1, *, c=2)`)"""
+    p = REPO / sp.file
+    if p not in _AST_CACHE:
+        _AST_CACHE[p] = ast.parse(p.read_text())
+    a = find_def(_AST_CACHE[p], sp.cls, sp.func).args
+    pos = a.posonlyargs + a.args
+    out = {x.arg: d for x, d in zip(pos[len(pos) - len(a.defaults):], a.defaults)}
+    out.update({x.arg: d for x, d in zip(a.kwonlyargs, a.kw_defaults) if d is not None})
+    return out
 
 
 def find_nested(fdef: ast.FunctionDef, name: str) -> ast.FunctionDef:
@@ -2306,7 +2437,8 @@ def regenerate(modules=None):
             continue
         out = ["-- GENERATED by harness/translate_algo.py from the current /repo sources. Do not edit.",
                "import SwcVerif.Model.Py"] + [f"import SwcVerif.Model.{m}" for m in MODULE_MODEL_IMPORTS.get(mod, [])] + [
-               f"import {m}" if m.startswith("SwcVerif.") else f"import SwcVerif.Gen.{m}" for m in MODULE_IMPORTS.get(mod, [])] + [
+               (f"import {m}" if m.startswith("SwcVerif.") else f"import SwcVerif.{m}" if m.startswith("Model.") else f"import SwcVerif.Gen.{m}")
+               for m in MODULE_IMPORTS.get(mod, [])] + [
                "set_option linter.unusedVariables false", "namespace Gen.Algo", ""]
         for name in MODULE_STRUCTS.get(mod, []):
             out.append(f"structure {name} where")
